@@ -39,4 +39,8 @@ H_GET(H_csDecode64, varintChainedSimpleDecode64, uint8_t, uint64_t, CS_GN, spec_
 H_GET(H_csDecode32, varintChainedSimpleDecode32, uint8_t, uint32_t, CS_GN, spec_chainedsimple_byte, CS_GOK32)
 H_GET(H_csDecode32Fallback, varintChainedSimpleDecode32Fallback, uint8_t, uint32_t, CS_GN, spec_chainedsimple_byte, CS_GOK32)
 H_REL(H_csRoundTrip, w_chainedSimpleRoundTrip, uint64_t, DOM_ANY)
+
+W_REL2(w_csMono, uint64_t, DOM_ANY, { return a > b || varintChainedSimpleLength(a) <= varintChainedSimpleLength(b); })
+H_REL2(H_csMono, w_csMono, uint64_t, DOM_ANY)
+
 RP_MAIN()
